@@ -21,7 +21,7 @@ VX(vid)   == Val("x", vid, <<>>)                   \* an exception, identified b
 VC(c)     == Val("c", c, <<>>)
 VIv(f)    == Val("iv", f, <<>>)
 IsX(v)    == v.g = "x"
-IsBaseX(v) == v.g = "x" /\ v.n >= 500000 /\ v.n < 600000      \* derives from BaseException only: `except Exception` lets it pass
+IsBaseX(v) == v.g = "x" /\ v.n >= 500000 /\ v.n < 700000      \* 5xxxxx: a BaseException subclass, 6xxxxx: AsyncTaskCancelledError (GeneratorExit family)      \* derives from BaseException only: `except Exception` lets it pass
 
 IsContainer(s) == s.g \in {"Tup", "Lst", "Dct"}
 LowerTag(g) == IF g = "Tup" THEN "tup" ELSE IF g = "Lst" THEN "lst" ELSE "dct"
@@ -145,6 +145,7 @@ TaskOut(P, t) ==            \* the value task t returns, or VX(id) of the except
                        IF seg.term.k = "return" /\ seg.term.ret # 0 THEN Val("fut", seg.term.ret, <<>>) ELSE Val("r", t, o.rs)
                   [] seg.term.k = "raise" -> VX(10000 + t * 100 + k)
                   [] seg.term.k = "raiseb" -> VX(500000 + t * 100 + k)
+                  [] seg.term.k = "raisec" -> VX(600000 + t * 100 + k)
   IN Go(1, <<>>)
 
 (* ---------------- static predicates on programs ---------------------------------------------- *)
@@ -162,7 +163,9 @@ NoThrowKind(P) == \A k \in 1..Len(P.kinds) : P.kinds[k].flush # "throw"
 \* an exception raised by BatchBase.flush() itself (31000 + kind)
 IsEscape(v) == IsX(v) /\ (v.n = 80000 \/ (v.n >= 31000 /\ v.n < 32000))
 NoStackLimit(P) == "maxstack" \notin DOMAIN P
-NoBaseRaise(P) == \A t \in 1..Len(P.tasks) : \A k \in 1..Len(P.tasks[t].segs) : P.tasks[t].segs[k].term.k # "raiseb"
+NoBaseRaise(P) == \A t \in 1..Len(P.tasks) : \A k \in 1..Len(P.tasks[t].segs) : P.tasks[t].segs[k].term.k \notin {"raiseb", "raisec"}
+\* the value a scoped variable / attribute has outside every override (the last scoped value holds None, written -1)
+SvDefault(P, i) == IF i = P.nvars /\ P.nvars >= 2 THEN 0 - 1 ELSE 0
 HasDedup(P, t) == "dedup" \in DOMAIN P.tasks[t]
 NoDedup(P) == \A t \in 1..Len(P.tasks) : ~HasDedup(P, t)
 \* (function, normalised arguments, binding: plain function / method of instance 1 or 2 / static method); one thread
